@@ -26,8 +26,21 @@ Definition subclass (a b : ty) : bool :=                 (* issubclass(a, b), a 
 Definition in_ (l : list ty) (t : ty) : bool := existsb (ty_eqb t) l.
 
 (* the decision of the chain: true = the comparison is attempted, false = XPTY0004 *)
+Definition is_g (t : ty) : bool := match t with TGYear => true | _ => false end.   (* x.name.startswith('g') *)
 Definition vc_accepts (o : vop) (a b : ty) : bool :=
-  if ty_eqb a b && negb (ty_eqb a TDuration) then true                        (* cls0 is cls1 and cls0 is not Duration *)
+  if negb (is_eqop o) && (is_g a || is_g b) then false                         (* no order relation on xs:gYear ... *)
+  else if ty_eqb a b && negb (ty_eqb a TDuration) then true                   (* cls0 is cls1 and cls0 is not Duration *)
+  else if is_float a && is_float b then true
+  else if ty_eqb a TBool || ty_eqb b TBool then false
+  else if in_ [TInt; TDec] a && in_ [TInt; TDec] b then true
+  else if in_ [TStr; TUntyped; TAnyURI] a && in_ [TStr; TUntyped; TAnyURI] b then true
+  else if in_ [TDbl; TFlt; TDec; TInt] a && in_ [TDbl; TFlt; TDec; TInt] b then true
+  else if is_duration a && is_duration b && is_eqop o then true
+  else if (subclass a b || subclass b a) && negb (is_duration a) then true
+  else false.
+(* the chain before the repairs: strings / untypedAtomic accepted against QName, no test of the g* types *)
+Definition vc_accepts_old (o : vop) (a b : ty) : bool :=
+  if ty_eqb a b && negb (ty_eqb a TDuration) then true
   else if is_float a && is_float b then true
   else if ty_eqb a TBool || ty_eqb b TBool then false
   else if in_ [TInt; TDec] a && in_ [TInt; TDec] b then true
@@ -37,25 +50,39 @@ Definition vc_accepts (o : vop) (a b : ty) : bool :=
   else if is_duration a && is_duration b && is_eqop o then true
   else if (subclass a b || subclass b a) && negb (is_duration a) then true
   else false.
+(* after the chain getattr(operator, symbol) is applied to the two operands; a TypeError becomes XPTY0004 (modelled external:
+   QName defines no order, AbstractBinary orders only when created by a 3.1+ parser (ordered flag), a string-like value
+   against a QName compares unequal / raises for order) *)
+Definition is_bin (t : ty) : bool := match t with THex | TB64 => true | _ => false end.
+Definition py_op_defined (v31 : bool) (o : vop) (a b : ty) : bool :=
+  if is_eqop o then true
+  else if ty_eqb a TQName || ty_eqb b TQName then false
+  else if is_bin a && is_bin b then v31
+  else true.
+(* the observable decision: a value (true) or XPTY0004 (false) *)
+Definition vc_defined (v31 : bool) (o : vop) (a b : ty) : bool := vc_accepts o a b && py_op_defined v31 o a b.
+Definition vc_defined_old (v31 : bool) (o : vop) (a b : ty) : bool := vc_accepts_old o a b && py_op_defined v31 o a b.
 
-(* F&O operator mapping: which value comparisons are defined *)
+(* F&O operator mapping: which value comparisons are defined (v31: XPath 3.1, which adds op:hexBinary-less-than /
+   -greater-than and the base64Binary ones) *)
 Definition numeric (t : ty) : bool := in_ [TInt; TDec; TDbl; TFlt] t.
 Definition stringlike (t : ty) : bool := in_ [TStr; TUntyped; TAnyURI] t.    (* untypedAtomic is compared as a string *)
-Definition vc_spec (o : vop) (a b : ty) : bool :=
+Definition vc_spec (v31 : bool) (o : vop) (a b : ty) : bool :=
   if numeric a && numeric b then true
   else if stringlike a && stringlike b then true
   else if ty_eqb a TBool && ty_eqb b TBool then true
   else if ty_eqb a b && in_ [TDate; TDateTime; TTime] a then true
-  else if ty_eqb a b && in_ [TGYear; TQName; THex; TB64] a then is_eqop o      (* equality only *)
+  else if ty_eqb a b && in_ [TGYear; TQName] a then is_eqop o      (* equality only *)
+  else if ty_eqb a b && is_bin a then is_eqop o || v31
   else if is_duration a && is_duration b then
          is_eqop o || (ty_eqb a TYMDur && ty_eqb b TYMDur) || (ty_eqb a TDTDur && ty_eqb b TDTDur)
   else false.
 Definition all_ty : list ty := [TInt; TDec; TDbl; TFlt; TStr; TUntyped; TAnyURI; TBool; TQName; TDate; TDateTime; TTime; TGYear;
                                 TDuration; TYMDur; TDTDur; THex; TB64].
 Definition all_ops : list vop := [Eq; Ne; Lt; Le; Gt; Ge].
-(* the cells on which the chain and the F&O table disagree *)
-Definition vc_disagreements : list (vop * ty * ty) :=
-  filter (fun c => negb (Bool.eqb (vc_accepts (fst (fst c)) (snd (fst c)) (snd c)) (vc_spec (fst (fst c)) (snd (fst c)) (snd c))))
+(* the cells on which the old chain and the F&O table disagreed (3.1) *)
+Definition vc_old_disagreements : list (vop * ty * ty) :=
+  filter (fun c => negb (Bool.eqb (vc_defined_old true (fst (fst c)) (snd (fst c)) (snd c)) (vc_spec true (fst (fst c)) (snd (fst c)) (snd c))))
          (flat_map (fun o => flat_map (fun a => map (fun b => (o, a, b)) all_ty) all_ty) all_ops).
 
 (* ---- general comparison ---- *)
